@@ -551,15 +551,34 @@ func parseArrayOut(k kind, o *aop, line string) (aout, error) {
 // ---------------------------------------------------------------- generation
 
 type arrGen struct {
-	rng    *lib.Rng
-	k      kind
-	fixed  bool
-	target int // size the history drifts towards
-	nextID int64
+	rng      *lib.Rng
+	k        kind
+	fixed    bool
+	target   int // size the history drifts towards
+	nextID   int64
+	hugeLeft int // how many more non-inlinable Int elements this history may introduce
+}
+
+// hugeExps: Int elements of 2^e + id.  atree inlines an array element up to ~500 bytes and a
+// dictionary key/value up to ~240 bytes; beyond that the scalar lives in its own slab and the
+// container only holds a slab reference.
+var hugeExps = []uint{600, 1900, 2100, 3900, 4100, 4500, 6400, 7000}
+
+func hugeInt(rng *lib.Rng, id int64) *big.Int {
+	z := new(big.Int).Lsh(bi(1), hugeExps[rng.Intn(len(hugeExps))])
+	z.Add(z, bi(id))
+	if rng.Chance(1, 4) {
+		z.Neg(z)
+	}
+	return z
 }
 
 func (g *arrGen) freshID() *big.Int {
 	g.nextID++
+	if g.k == KInt && g.hugeLeft > 0 && (g.nextID == 2 || g.rng.Chance(1, 12)) {
+		g.hugeLeft--
+		return hugeInt(g.rng, g.nextID)
+	}
 	if g.k == KInt {
 		switch g.rng.Intn(40) {
 		case 0:
